@@ -168,7 +168,7 @@ def _build(repo, features, fdir, key, nfiles, slot, t0):
         os.rename(tmp, fdir)
     except OSError:
         shutil.rmtree(tmp, ignore_errors=True)
-    _gc(os.path.join(CACHE, "facts"), keep=320)
+    _gc(os.path.join(CACHE, "facts"), keep=120)
 
 
 def _gc(d, keep):
@@ -229,6 +229,11 @@ def extract_corpus(size="quick", repo=None):
                             "RUSTFLAGS": "-Zmir-opt-level=0 -Awarnings", "RUSTC_WORKSPACE_WRAPPER": DRIVER, "CARGO_TARGET_DIR": target, "CARGO_NET_OFFLINE": "true"})
                 env.pop("RUSTC_WRAPPER", None)
                 r = subprocess.run(["cargo", "+nightly", "check", "--offline"], cwd=work, env=env, stdout=subprocess.PIPE, stderr=subprocess.STDOUT, text=True)
+                if os.path.realpath(repo) != os.path.realpath("/repo"):
+                    # a scratch copy of the repository: its path-dependent packages would pile up in the shared target
+                    # directory (one full copy per patched tree); drop them again, the registry dependencies stay warm
+                    subprocess.run(["cargo", "+nightly", "clean", "--offline", "-p", "apache-avro", "-p", "apache-avro-derive", "-p", "avro_verif_corpus"],
+                                   cwd=work, env=env, stdout=subprocess.DEVNULL, stderr=subprocess.DEVNULL)
                 out = {"_meta": {"repo": repo, "tree_hash": key, "size": size, "corpus_hash": ch, "compile_ok": r.returncode == 0, "types": src.count("derive(")}}
                 if r.returncode != 0:
                     # a corpus type that no longer compiles is itself a finding of the check (the derive rejects or mis-expands it)
